@@ -174,24 +174,33 @@ def hier_def(rng, is_async=False, concrete=False, dynamic=True):
     def leaf(top=False):
         n = next(it)
         return ('leaf' if top else 'state', n, (['D'] if rng.random() < 0.3 else None))
-    inner2 = ('sup', sups[2], None, [leaf(), leaf()])
+    def with_initial(body, p=0.6):
+        """an explicit `initial:` naming a leaf beneath the block (any depth), preferably not the first one"""
+        if rng.random() < p:
+            below = D._leaf_names(body)
+            cand = below[1:] or below
+            body = list(body)
+            body.insert(rng.randrange(len(body) + 1), ('initial', rng.choice(cand)))
+        return body
+    inner2 = ('sup', sups[2], None, with_initial([leaf(), leaf()]))
     inner_body = [leaf(), inner2, leaf()] if rng.random() < 0.5 else [leaf(), leaf()]
-    if rng.random() < 0.5:
-        inner_body.insert(rng.randrange(len(inner_body) + 1), ('initial', [b[1] for b in inner_body if b[0] == 'state'][-1]))
-    inner = ('sup', sups[1], None, inner_body)
+    inner = ('sup', sups[1], None, with_initial(inner_body))
     outer_body = [leaf(), inner, leaf()]
     rng.shuffle(outer_body) if rng.random() < 0.3 else None
-    outer = ('sup', sups[0], None, outer_body)
+    outer = ('sup', sups[0], None, with_initial(outer_body))
     forest = [leaf(True), outer]
     if rng.random() < 0.5:
         forest.append(leaf(True))
     used_sups = [sups[0], sups[1]] + ([sups[2]] if inner2 in inner_body else [])
     leaves = D._leaf_names(forest)
     blocks = []
-    enames = rng.sample(EVENT_POOL, 3)
+    enames = rng.sample(EVENT_POOL, 4)
     for i, en in enumerate(enames):
         src = used_sups[-1 - (i % len(used_sups))] if i < 2 else rng.choice(leaves)
-        tgt = rng.choice(leaves + used_sups)
+        # the first two events enter a superstate (so that its initial leaf matters), the others go anywhere
+        tgt = rng.choice(used_sups) if i in (0, 2) else rng.choice(leaves + used_sups)
+        if i == 2:
+            src = leaves[0]
         items = [('transition', [('from', [src], False), ('to', tgt)])]
         if rng.random() < 0.3:
             items.append(('guards', [rng.choice(hook_names('guards', False))], True))
@@ -207,6 +216,88 @@ def hier_def(rng, is_async=False, concrete=False, dynamic=True):
     d.append(('states', forest))
     d.append(('events', blocks, True))
     return d
+
+def t3ify(d):
+    """the same definition with the harness's types (Ctx / Pay / D) and with hook names made unique per
+    signature class, so that a definition drawn for the token-level tie can be compiled and driven"""
+    names = {}
+    def hn(kind, payload, n):
+        pre = {'guards': 'g', 'unless': 'g', 'before': 'b', 'after': 'a', 'around': 'w'}[kind]
+        if kind != 'around' and payload:
+            pre += 'p'
+        key = (pre, n)
+        if key not in names:
+            names[key] = f'{pre}{sum(1 for k in names if k[0] == pre)}'
+        return names[key]
+    def forest(items):
+        out = []
+        for it in items:
+            if it[0] in ('leaf', 'state'):
+                out.append((it[0], it[1], ['D'] if it[2] else None))
+            elif it[0] == 'sup':
+                out.append(('sup', it[1], ['D'] if it[2] else None, forest(it[3])))
+            else:
+                out.append(it)
+        return out
+    res = []
+    for it in d:
+        if it[0] == 'context':
+            res.append(('context', ['Ctx']))
+        elif it[0] == 'states':
+            res.append(('states', forest(it[1])) + tuple(it[2:]))
+        elif it[0] == 'events':
+            blocks = []
+            for (en, items) in it[1]:
+                payload = any(e[0] == 'payload' for e in items)
+                nitems = []
+                for e in items:
+                    if e[0] == 'payload':
+                        nitems.append(('payload', ['Pay']))
+                    elif e[0] in D.HOOKS:
+                        nitems.append((e[0], [hn(e[0], payload, n) for n in e[1]]) + tuple(e[2:]))
+                    elif e[0] == 'transition':
+                        nitems.append(('transition', [((t[0], [hn(t[0], payload, n) for n in t[1]]) + tuple(t[2:])) if t[0] in D.HOOKS else t
+                                                      for t in e[1]]))
+                    else:
+                        nitems.append(e)
+                blocks.append((en, nitems))
+            res.append(('events', blocks) + tuple(it[2:]))
+        else:
+            res.append(it)
+    return res
+
+def scn_edges(info, d, cap_edges=10, cap_bits=4):
+    """for every edge: walk to its source along accepted transitions (all guards true, nothing else
+    holds), then take it under every truth assignment of its conditions"""
+    guards = sorted(n for n, (k, _) in hooks_used(d).items() if k == 'guards')
+    evs = {x['name']: x for x in info['events']}
+    dyn = info['dynamic']
+    def call(e, p):
+        ev = evs[e['event']]
+        pl = p if ev['payload'] else '-'
+        return f'handle {ev["pascal"]} {pl}' if dyn else f'tcall {ev["method"]} {pl}'
+    # breadth-first paths from the initial state
+    init = info.get('initial')
+    paths = {init: []}
+    todo = [init]
+    while todo:
+        s = todo.pop(0)
+        for e in info['edges']:
+            if e['src'] == s and e['target'] not in paths:
+                paths[e['target']] = paths[s] + [e]
+                todo.append(e['target'])
+    out = []
+    for e in info['edges'][:cap_edges]:
+        if e['src'] not in paths:
+            continue
+        pre = [op_line('newdyn 4' if dyn else 'newtyped 4')] + [op_line(call(x, '8'), guards, None) for x in paths[e['src']]]
+        nab = len(e['ar'])
+        nc = len(e['g']) + len(e['u'])
+        for bits in range(1 << min(nc, cap_bits)):
+            script = ['-'] * nab + [f'b={(bits >> i) & 1}' for i in range(nc)]
+            out.append(pre + [op_line(call(e, '9'), None, script), op_line('state' if dyn else 'topt X'),
+                              op_line(call(e, '9'), guards, None), op_line('drop')])
+    return out
 
 # ---------------------------------------------------------------------------------------
 # machine facts from the Lean driver
